@@ -9,6 +9,7 @@ import (
 	"github.com/google/uuid"
 	"github.com/internetarchive/Zeno/internal/pkg/config"
 	"github.com/internetarchive/Zeno/internal/pkg/log"
+	"github.com/internetarchive/Zeno/internal/pkg/verifhook"
 	"github.com/internetarchive/Zeno/pkg/models"
 	"github.com/internetarchive/gocrawlhq"
 )
@@ -88,6 +89,7 @@ func finisherReceiver(ctx context.Context, wg *sync.WaitGroup, batchCh chan *fin
 			return
 		case item := <-globalHQ.finishCh:
 			logger.Debug("received item", "item", item.GetShortID())
+			verifhook.At("hq.finish.recv", item.GetID())
 
 			var value string
 			// If preprocessing failed, there will be nil values here
